@@ -9,6 +9,8 @@ is established on runs by the correspondence/oracle legs (every single cut point
 feeding for short streams, random partitions and output grants otherwise, flat and ring).
 -/
 import MinizProof.Spec.Inflate
+import MinizProof.Lemmas.CoreGrow
+set_option maxRecDepth 100000
 namespace C07
 open Spec
 
@@ -79,6 +81,55 @@ theorem decodeSymAux_mono {a b : Array UInt8} (h : IsPrefix a b) (c : Code) (fue
 theorem decodeSym_mono {a b : Array UInt8} (h : IsPrefix a b) (c : Code) (pos s p : Nat)
     (hs : decodeSym c a pos = .sym s p) : decodeSym c b pos = .sym s p :=
   decodeSymAux_mono h c 15 1 pos 0 0 0 s p hs
+
+/-! ### Suspension and resumption of the decoder model's automaton
+
+`Model.Core.run e fuel c out` is the automaton of one call (`e`: offered input, flags, output window;
+`c`: registers and cursors; `out`: the output buffer). `Final e c out R` says the run from `(c, out)`
+ends with result `R = (status, context, buffer)`; it is unique (`Final.unique`).
+The two theorems hold for EVERY register state (reachable or not), input, buffer, window and flags
+word, flat and ring mode alike. They are proved state by state (`Lemmas/CoreSplit`, `CoreGrow`):
+reads from a prefix of the input are reads from the whole input; a starved read leaves the bit buffer
+exactly where the whole-input read passes through; a stored-block or match copy cut short by the end
+of the chunk / window is completed by the resumed run in the same place (`copyIn_add`,
+`copyBytes_add`, ring source positions modulo the ring size).
+
+What these `_partial` theorems do NOT yet cover of the property: the glue of `decompress` between two
+calls — the next call restarts its input cursor at 0 on the next chunk, masks the bit buffer and
+updates the running Adler-32 per call. That glue is compared on every run (every cut point of short
+streams, byte-wise feeding, random chunkings and output grants, flat and ring), and every real call is
+replayed through `Model.Core.decompress`. -/
+open Model.Core in
+/-- INPUT SPLIT. If the automaton run over the chunk `e.inp` stops starved ("needs more input")
+    in `(c1, out1)`, then the run over the whole input `e.inp ++ b` resumed from `(c1, out1)` and the
+    run over the whole input from the start end with the same result. -/
+theorem resume_after_starved_input_partial (e : Env) (b : Array UInt8) (f : Nat) (c : Ctx) (out : Array UInt8)
+    (c1 : Ctx) (out1 : Array UInt8) (g : Geo e c out) (h : run e f c out = (e.eoi, c1, out1))
+    (R : Int × Ctx × Array UInt8) (hR : Final (e.ext b) c1 out1 R) : Final (e.ext b) c out R :=
+  run_split e b f c out c1 out1 g h R hR
+
+open Model.Core in
+/-- OUTPUT SPLIT. If the run with output window end `e.outEnd` stops for lack of room ("has more
+    output") in `(c1, out1)`, then the run with a larger window `E2` resumed from `(c1, out1)` and
+    the run with the larger window from the start end with the same result — stored-block and match
+    copies interrupted by the end of the window included, in flat and in ring mode. -/
+theorem resume_after_full_window_partial (e : Env) (E2 : Nat) (hE : e.outEnd ≤ E2) (hL : e.outEnd ≤ e.outLen)
+    (f : Nat) (c : Ctx) (out : Array UInt8) (c1 : Ctx) (out1 : Array UInt8) (g : Geo e c out)
+    (h : run e f c out = (stHasMoreOutput, c1, out1))
+    (R : Int × Ctx × Array UInt8) (hR : Final (e.grow E2) c1 out1 R) : Final (e.grow E2) c out R :=
+  run_grow e E2 hE hL f c out c1 out1 g h R hR
+
+open Model.Core in
+/-- The result of a run is unique, so "the same result" above is THE result of the whole run. -/
+theorem final_result_unique (e : Env) (c : Ctx) (out : Array UInt8) (R R' : Int × Ctx × Array UInt8)
+    (h : Final e c out R) (h' : Final e c out R') : R = R' := Final.unique h h'
+
+/-- The hypotheses are satisfiable: a run that starves inside a stored-block header, and one that
+    stops with a full window inside a stored block. -/
+example : (Model.Core.run { inp := #[0x01, 0x02], flags := 6, outLen := 4, outEnd := 4 } 100
+    { r := {}, inPos := 0, outPos := 0 } (Array.replicate 4 0)).1 = Model.Core.stNeedsMoreInput := by decide +kernel
+example : (Model.Core.run { inp := #[0x01, 0x02, 0x00, 0xfd, 0xff, 0x41, 0x42], flags := 6, outLen := 4, outEnd := 1 } 100
+    { r := {}, inPos := 0, outPos := 0 } (Array.replicate 4 0)).1 = Model.Core.stHasMoreOutput := by decide +kernel
 
 example : IsPrefix #[1, 2] #[1, 2, 3] := ⟨by decide, by intro i hi; match i, hi with | 0, _ => rfl | 1, _ => rfl⟩
 example : bitsAt #[0xA5] 0 8 = some 0xA5 := by decide +kernel
